@@ -69,11 +69,27 @@ Lemma NoDup_map_shift (k : Z) (l : list Z) : NoDup (map (fun x => k + x) l) -> N
 Proof. apply NoDup_map_inv. Qed.
 
 Lemma fftw_plan_dft_fields which bi li bo lo s d h g :
-  g = fftw_plan_dft which bi li bo lo s ->
+  g = plan_ctor which bi li bo lo s ->
   plan_of which (l_sizes li) (l_strides li) (l_strides lo) = (d, h) ->
   g_dims g = d /\ g_hdims g = h /\ g_in g = bi /\ g_out g = bo /\ g_sign g = s
-  /\ Z.testbit (g_flags g) 4 = true.
-Proof. intros -> E. unfold fftw_plan_dft. rewrite E. cbn. auto 10. Qed.
+  /\ Z.testbit (g_flags g) 4 = true
+  /\ planning_preserves_arrays (g_flags g) = true /\ planning_needs_wisdom (g_flags g) = false.
+Proof. intros -> E. unfold plan_ctor, fftw_plan_dft. rewrite E. cbn. auto 10. Qed.
+
+(* The planner flags of every plan the adaptor creates, whatever the mask, the pointers, the layouts (hence
+   every size), the sign and the flags argument: FFTW_ESTIMATE | FFTW_PRESERVE_INPUT.  So planning leaves the
+   arrays alone, an out-of-place execution preserves its input, and the plan is not wisdom-only. *)
+Theorem C15_planner_flags_proved :
+  forall which bi li bo lo s flags,
+    let g := fftw_plan_dft which bi li bo lo s flags in
+       g_flags g = Z.lor FFTW_ESTIMATE FFTW_PRESERVE_INPUT
+    /\ planning_preserves_arrays (g_flags g) = true
+    /\ Z.testbit (g_flags g) 4 = true
+    /\ planning_needs_wisdom (g_flags g) = false.
+Proof.
+  intros. subst g. unfold fftw_plan_dft.
+  destruct (plan_of which (l_sizes li) (l_strides li) (l_strides lo)) as [d h]. cbn. auto.
+Qed.
 
 Section DFT.
   Variable C : Type.
@@ -258,9 +274,17 @@ Section DFT.
 
   (* ---------- FFTW as an oracle ---------- *)
   Variable fftw_exec : guru_call -> Z -> Z -> mem C -> mem C.
-  Notation Dft_mem := (dft_mem C fftw_exec).
-  Notation Plan_mem := (plan_mem C fftw_exec).
-  Notation Fft_range_mem := (fft_range_mem C fftw_exec).
+  Variable fftw_plan_effect : guru_call -> mem C -> mem C.
+  Notation Dft_mem := (dft_mem C fftw_exec fftw_plan_effect).
+  Notation Plan_mem := (plan_mem C fftw_exec fftw_plan_effect).
+  Notation Fft_range_mem := (fft_range_mem C fftw_exec fftw_plan_effect).
+
+  (* FFTW's documented behaviour at PLANNING time (manual 4.3.2, see planning_preserves_arrays in
+     Model/FftwPlan.v): with FFTW_ESTIMATE (or FFTW_WISDOM_ONLY) among the flags, creating the plan does
+     not write to the arrays -- for any transform size.  Nothing is assumed for other flag sets (measuring
+     planners overwrite both arrays). *)
+  Definition plan_contract : Prop :=
+    forall g m, planning_preserves_arrays (g_flags g) = true -> fftw_plan_effect g m = m.
 
   (* FFTW's documented domain for fftw_plan_guru64_dft + fftw_execute_dft (manual 4.5, 4.6):
      the plan is executed on the arrays it was created for; a valid sign; positive transform sizes, non-negative vector sizes (else the plan is NULL);
@@ -322,15 +346,15 @@ Section DFT.
 
   (* explicit plan objects: FFTW's own domain applies (the constructor asserts a non-NULL plan) *)
   Theorem C15_plan_object_proved :
-    guru_contract ->
+    guru_contract -> plan_contract ->
     forall which vin vout s m,
       c15_domain which vin vout s -> no_empty_transform which vin ->
       c15_result which vin vout s m (Plan_mem which vin vout s m).
   Proof.
-    intros Hc which vin vout s m (Hw & Hl & Zi & Zo & Hs & Hnn & Hsg & Hnd & Hio) Hne.
+    intros Hc Hp which vin vout s m (Hw & Hl & Zi & Zo & Hs & Hnn & Hsg & Hnd & Hio) Hne.
     pose proof (C15_plan_denotes_view_dft_proved which vin vout Hw Hl Zi Zo) as P.
     pose proof (C15_output_frame_proved which vin vout s Hw Hl Zi Zo Hs) as F. cbv zeta in F.
-    remember (fftw_plan_dft which (base vin) (lay vin) (base vout) (lay vout) s) as g eqn:Eg.
+    remember (plan_ctor which (base vin) (lay vin) (base vout) (lay vout) s) as g eqn:Eg.
     destruct F as (Fo & Fi & _).
     pose proof (plan_of_sizes which (l_sizes (lay vin)) (l_strides (lay vin)) (l_strides (lay vout))) as S.
     rewrite l_sizes_length, !l_strides_length in S.
@@ -338,7 +362,7 @@ Section DFT.
     pose proof (plan_of_inplace which (l_sizes (lay vin)) (l_strides (lay vin))) as Pin.
     rewrite l_sizes_length, l_strides_length in Pin. specialize (Pin (eq_sym Hw) (eq_sym Hw)).
     destruct (plan_of which (l_sizes (lay vin)) (l_strides (lay vin)) (l_strides (lay vout))) as [d h] eqn:Epl.
-    destruct (fftw_plan_dft_fields _ _ _ _ _ _ d h g Eg Epl) as (Ed & Eh & Egi & Ego & Egs & Egf).
+    destruct (fftw_plan_dft_fields _ _ _ _ _ _ d h g Eg Epl) as (Ed & Eh & Egi & Ego & Egs & Egf & Egp & Egw).
     destruct P as (P & _).
     destruct S as (Sn & Sis & Sos & Shn & Shis & Shos).
     unfold plan_out_addresses, plan_in_addresses in Fo, Fi. rewrite Ed, Eh in Fo, Fi.
@@ -360,7 +384,8 @@ Section DFT.
         + right. split; [symmetry; exact Hb|]. rewrite Hst in Epl. rewrite Epl in Pin. exact Pin. }
     specialize (Hc g (base vin) (base vout) m Hpre).
     unfold guru_post in Hc. rewrite Ed, Eh, Egs in Hc. destruct Hc as (Hval & Hfr).
-    unfold c15_result, plan_mem, fe_plan_execute. rewrite <- Eg. cbn [run_events]. rewrite Hk.
+    unfold c15_result, plan_mem, fe_plan_execute. rewrite <- Eg. cbn [run_events].
+    unfold plan_nonnull. rewrite Hk, Egw. cbn [negb andb]. rewrite (Hp g m Egp).
     eexists. split; [reflexivity|split].
     - intros idx Hv.
       assert (Hli : length idx = length which).
@@ -394,44 +419,44 @@ Section DFT.
 
   (* fftw::dft and every front end built on it: no exclusion -- an empty view is a no-op *)
   Theorem C15_equals_direct_dft_proved :
-    guru_contract ->
+    guru_contract -> plan_contract ->
     forall which vin vout s m,
       c15_domain which vin vout s ->
       c15_result which vin vout s m (Dft_mem which vin vout s m).
   Proof.
-    intros Hc which vin vout s m D. pose proof D as (Hw & Hl & Zi & Zo & Hs & Hnn & _).
+    intros Hc Hp which vin vout s m D. pose proof D as (Hw & Hl & Zi & Zo & Hs & Hnn & _).
     unfold dft_mem. pose proof (fe_dft_call which vin vout s) as E.
     destruct (l_num_elements (lay vin) =? 0) eqn:En; rewrite E.
     - apply Z.eqb_eq in En. cbn [run_events]. exists m. split; [reflexivity|split; [|reflexivity]].
       intros idx Hv. exfalso. rewrite Hs in Hv. exact (num_elements_zero_no_idx _ Hnn En idx Hv).
-    - apply Z.eqb_neq in En. apply (C15_plan_object_proved Hc which vin vout s m D).
+    - apply Z.eqb_neq in En. apply (C15_plan_object_proved Hc Hp which vin vout s m D).
       unfold no_empty_transform. apply Forall_select. apply num_elements_nonzero_pos; assumption.
   Qed.
 
   (* the lazy range form  out = multi::fft::dft(which, in, dir)  computes the same thing *)
   Theorem C15_lazy_range_equals_direct_dft_proved :
-    guru_contract ->
+    guru_contract -> plan_contract ->
     forall which vin vout s m,
       c15_domain which vin vout s ->
       iter_pair_okb (l_size (lay vin)) vin = true -> iter_pair_okb (l_size (lay vin)) vout = true ->
       c15_result which vin vout s m (Fft_range_mem which vin vout s m).
   Proof.
-    intros Hc which vin vout s m D Hi Ho. unfold fft_range_mem.
+    intros Hc Hp which vin vout s m D Hi Ho. unfold fft_range_mem.
     rewrite (C15_lazy_range_proved which vin vout s Hi Ho).
-    apply (C15_equals_direct_dft_proved Hc which vin vout s m D).
+    apply (C15_equals_direct_dft_proved Hc Hp which vin vout s m D).
   Qed.
 
   (* "A distinct input is left unchanged." *)
   Corollary C15_input_unchanged_proved :
-    guru_contract ->
+    guru_contract -> plan_contract ->
     forall which vin vout s m,
       c15_domain which vin vout s ->
       (forall a b, In a (footprint vin) -> In b (footprint vout) -> a <> b) ->
       exists m', Dft_mem which vin vout s m = Some m' /\
         forall idx, valid_idx (l_sizes (lay vin)) idx -> m' (v_addr vin idx) = m (v_addr vin idx).
   Proof.
-    intros Hc which vin vout s m Hd Hdis.
-    destruct (C15_equals_direct_dft_proved Hc which vin vout s m Hd) as (m' & E & _ & Hfr).
+    intros Hc Hp which vin vout s m Hd Hdis.
+    destruct (C15_equals_direct_dft_proved Hc Hp which vin vout s m Hd) as (m' & E & _ & Hfr).
     exists m'. split; [exact E|]. intros idx Hv. apply Hfr. intros Hin.
     apply (Hdis (v_addr vin idx) (v_addr vin idx)); auto.
     unfold footprint. apply in_map. apply In_tuples. exact Hv.
@@ -440,7 +465,7 @@ Section DFT.
   (* "Forward followed by backward multiplies every element by the number of transformed points":
      forward from vin into vout, then the opposite sign from vout into v3. *)
   Theorem C15_forward_backward_proved :
-    guru_contract ->
+    guru_contract -> plan_contract ->
     forall which vin vout v3 s m,
       c15_domain which vin vout s -> c15_domain which vout v3 (- s) ->
       Forall (tw_orthogonal_at s) (select which (l_sizes (lay vin))) ->
@@ -448,10 +473,10 @@ Section DFT.
         forall idx, valid_idx (l_sizes (lay vin)) idx ->
           m2 (v_addr v3 idx) = Zc (npoints which (l_sizes (lay vin))) *c m (v_addr vin idx).
   Proof.
-    intros Hc which vin vout v3 s m D1 D2 Ho.
+    intros Hc Hp which vin vout v3 s m D1 D2 Ho.
     pose proof D1 as (Hw & Hl & _ & _ & Hs & Hnn & _). pose proof D2 as (_ & _ & _ & _ & Hs3 & _).
-    destruct (C15_equals_direct_dft_proved Hc which vin vout s m D1) as (m1 & E1 & V1 & _).
-    destruct (C15_equals_direct_dft_proved Hc which vout v3 (- s) m1 D2) as (m2 & E2 & V2 & _).
+    destruct (C15_equals_direct_dft_proved Hc Hp which vin vout s m D1) as (m1 & E1 & V1 & _).
+    destruct (C15_equals_direct_dft_proved Hc Hp which vout v3 (- s) m1 D2) as (m2 & E2 & V2 & _).
     exists m1, m2. split; [exact E1|split; [exact E2|]]. intros idx Hv.
     rewrite V2 by (rewrite Hs3, Hs; exact Hv). rewrite Hs.
     rewrite (dftN_ext (- s) which (l_sizes (lay vin)) (view_read C m1 vout)
